@@ -79,9 +79,9 @@ var plans = map[string]plan{
 	},
 	"C09": {
 		Property: "C09", Level: "exploration",
-		Quick:    []phase{{Scen: "C09", Enum: true, Seeds: 1500, Batch: 50}},
-		Thorough: []phase{{Scen: "C09", Enum: true, Seeds: 150000, Batch: 500}},
-		Rule:     "seeded histories of 50..600 operations (Direct from 4 peers with 0..3 addresses out of public/private/loopback/unspecified/localhost IPv4, IPv6 and DNS forms; UncacheCid) over alphabets of 66..90 CIDs (a quarter of the runs: 3..10), biased towards fill-touch-evict patterns, allow filter all/none/subset/changing during the run, address filtering on/off, 1..2 producers and a consumer interleaved by the scheduler so that the one-slot delivery channel fills; the consumer must receive exactly the sequence a reference model (allow filter, then LRU(64) with move-to-front and removal) delivers, with unchanged CID and peer and exactly the public addresses. Enumerated: the exported LRU against the model for every operation sequence up to length 6 (quick) / 7 (thorough) at capacities 1..4. Non-trivial when two actions were simultaneously enabled; distinct = distinct (schedule hash, canonical log hash)",
+		Quick:    []phase{{Scen: "C09", Enum: true, Seeds: 1500, Batch: 50}, {Scen: "C09P", Seeds: 1500, Batch: 50}},
+		Thorough: []phase{{Scen: "C09", Enum: true, Seeds: 150000, Batch: 500}, {Scen: "C09P", Seeds: 150000, Batch: 250}},
+		Rule:     "seeded histories of 50..600 operations (Direct from 4 peers with 0..3 addresses out of public/private/loopback/unspecified/localhost IPv4, IPv6 and DNS forms; UncacheCid) over alphabets of 66..90 CIDs (a quarter of the runs: 3..10), biased towards fill-touch-evict patterns, allow filter all/none/subset/changing during the run, address filtering on/off, 1..2 producers and a consumer interleaved by the scheduler so that the one-slot delivery channel fills; the consumer must receive exactly the sequence a reference model (allow filter, then LRU(64) with move-to-front and removal) delivers, with unchanged CID and peer and exactly the public addresses. A second scenario (C09P) runs the receiver WITH a pubsub topic over real gossipsub on three mocknet hosts: plain gossip announcements from one peer, republished announcements (original-peer field) from a second, direct announcements, un-cache operations and a consumer, 6..30 operations; the allow-peer callback is harness code that parks, so every announcement passes a scheduler-controlled point right before the duplicate check; the model's delivered sequence (with republished announcements attributed to their original publisher), address filtering, what the receiver republishes (observed by the third host) and that it never processes its own republications are checked. Enumerated: the exported LRU against the model for every operation sequence up to length 6 (quick) / 7 (thorough) at capacities 1..4. Non-trivial when two actions were simultaneously enabled; distinct = distinct (schedule hash, canonical log hash)",
 		Real:     []string{"announce.Receiver (Direct, Next, UncacheCid, announceCheck)", "announce string LRU", "mautil.FilterPublic"},
 		Stubs:    []string{"gossip pubsub (absent: the pubsub path - republished messages, original-peer attribution, own republications - is not exercised)", "wall clock (testing/synctest)"},
 		Assume:   commonAssume,
